@@ -67,7 +67,31 @@ pub broadcast proof fn axiom_string_ext(a: String, b: String)
     ensures (#[trigger] a@ == #[trigger] b@) <==> (a == b)
 {}
 
-pub broadcast group group_string_keys { axiom_contains_str_key, axiom_maps_str_key_to_value }
+#[verifier::external_body]
+pub broadcast proof fn axiom_set_contains_str_key(m: Set<String>, k: &str)
+    ensures #[trigger] vstd::std_specs::hash::set_contains_borrowed_key::<String, str>(m, k)
+        <==> exists|key: String| #![trigger m.contains(key)] m.contains(key) && key@ == k@
+{}
+
+/// &str keys looked up through &str (Borrow<str> for &str is the identity)
+#[verifier::external_body]
+pub broadcast proof fn axiom_contains_strref_key<'a, V>(m: Map<&'a str, V>, k: &str)
+    ensures #[trigger] vstd::std_specs::hash::contains_borrowed_key::<&'a str, V, str>(m, k)
+        <==> exists|key: &'a str| #![trigger m.contains_key(key)] m.contains_key(key) && key@ == k@
+{}
+#[verifier::external_body]
+pub broadcast proof fn axiom_maps_strref_key_to_value<'a, V>(m: Map<&'a str, V>, k: &str, v: V)
+    ensures #[trigger] vstd::std_specs::hash::maps_borrowed_key_to_value::<&'a str, V, str>(m, k, v)
+        <==> exists|key: &'a str| #![trigger m.contains_key(key)] m.contains_key(key) && key@ == k@ && m[key] == v
+{}
+
+/// a Vec<Symbol> is determined by its elements (trusted; used for HashMap<Vec<Symbol>, _> keys)
+#[verifier::external_body]
+pub proof fn axiom_vec_symbol_ext(a: Vec<crate::data::Symbol>, b: Vec<crate::data::Symbol>)
+    ensures (a@ == b@) <==> (a == b)
+{}
+
+pub broadcast group group_string_keys { axiom_contains_str_key, axiom_maps_str_key_to_value, axiom_set_contains_str_key, axiom_contains_strref_key, axiom_maps_strref_key_to_value }
 
 pub assume_specification<'a, K, V, S, A, Q>[ HashMap::<K, V, S, A>::get_mut::<Q> ](m: &'a mut HashMap<K, V, S, A>, k: &Q) -> (r: Option<&'a mut V>)
     where
